@@ -12,6 +12,7 @@ use secp256k1_zkp::ffi as zffi;
 #[path = "support/sinks.rs"]
 mod sinks;
 use sinks::{forget, CountSink};
+use core::mem::ManuallyDrop;
 #[path = "support/c01_ffi_models.rs"]
 mod ffi_models;
 #[path = "support/c01_spec.rs"]
@@ -65,18 +66,22 @@ fn surjproof(n: usize) -> Option<Box<SurjectionProof>> {
     r
 }
 
-/// witness-stack shape: up to two items of the given lengths (usize::MAX = absent)
+/// witness-stack shape: up to two items of the given lengths (NO = absent). The item headers live in a typed array.
 const NO: usize = usize::MAX;
-fn stack(a: usize, b: usize) -> Vec<Vec<u8>> {
-    let mut v = Vec::with_capacity(2);
-    if a != NO { v.push(vec![0u8; a]); }
-    if b != NO { v.push(vec![0u8; b]); }
-    v
+macro_rules! stack {
+    ($store:ident, $a:expr, $b:expr) => {
+        let mut $store = ManuallyDrop::new([vec![0u8; if $a == NO { 0 } else { $a }], vec![0u8; if $b == NO { 0 } else { $b }]]);
+    };
+}
+fn stack_vec(store: &mut ManuallyDrop<[Vec<u8>; 2]>, a: usize, b: usize) -> Vec<Vec<u8>> {
+    let n = if a == NO { 0 } else if b == NO { 1 } else { 2 };
+    if n == 0 { return Vec::new(); }
+    unsafe { Vec::from_raw_parts(store.as_mut_ptr() as *mut Vec<u8>, n, 2) }
 }
 
 /// an input whose *structural* features are symbolic (pegin, issuance / reissuance, null / explicit / confidential
 /// amounts, index incl. the null outpoint) and whose variable-length fields have the given concrete lengths
-fn mk_in(script: usize, arp: usize, krp: usize, sw0: usize, sw1: usize, pw0: usize) -> TxIn {
+fn mk_in(script: usize, arp: usize, krp: usize, sw: Vec<Vec<u8>>, pw: Vec<Vec<u8>>) -> TxIn {
     let issuance = if kani::any() {
         let i = AssetIssuance {
             asset_blinding_nonce: secp256k1_zkp::ZERO_TWEAK,
@@ -98,8 +103,8 @@ fn mk_in(script: usize, arp: usize, krp: usize, sw0: usize, sw1: usize, pw0: usi
         witness: TxInWitness {
             amount_rangeproof: rangeproof(arp),
             inflation_keys_rangeproof: rangeproof(krp),
-            script_witness: stack(sw0, sw1),
-            pegin_witness: stack(pw0, NO),
+            script_witness: sw,
+            pegin_witness: pw,
         },
     }
 }
@@ -129,8 +134,9 @@ fn check_tx(mut tx: Transaction) {
     let mut j = 0;
     while j < no {
         let o = &tx.output[j];
-        let wb = if hw { enc_len(&o.witness) } else { 0 };
-        assert!(o.witness.rangeproof_len() + o.witness.surjectionproof_len() + 2 <= enc_len(&o.witness));
+        let wlen = enc_len(&o.witness);
+        let wb = if hw { wlen } else { 0 };
+        assert!(o.witness.rangeproof_len() + o.witness.surjectionproof_len() + 2 <= wlen);
         disc += if wb > 2 { wb - 2 } else { 0 };
         if matches!(o.value, confidential::Value::Confidential(_)) { disc += 96; }
         if matches!(o.nonce, confidential::Nonce::Confidential(_)) { disc += 128; }
@@ -167,9 +173,10 @@ fn mk_tx(input: Vec<TxIn>, output: Vec<TxOut>) -> Transaction {
     Transaction { version: kani::any(), lock_time: LockTime::from_consensus(kani::any()), input, output }
 }
 
-//@ harness: size_tx_empty class=F tier=quick bound="0 inputs, 0 outputs"
+//@ harness: size_tx_empty class=F tier=thorough bound="0 inputs, 0 outputs"
 //@ clause: the transaction with no inputs and no outputs: size == serialized length (11), weight == 4*size, vsize == size, discount figures equal the plain ones
 #[kani::proof]
+#[kani::unwind(3)]
 fn size_tx_empty() {
     let tx = mk_tx(Vec::new(), Vec::new());
     assert!(tx.size() == 11);
@@ -177,16 +184,14 @@ fn size_tx_empty() {
     kani::cover!(true);
 }
 
-//@ harness: size_tx_nowit_1x1 class=B tier=quick bound="1 input (script 1 byte), 1 output (script 2 bytes), no witness; all structural features symbolic"
+//@ harness: size_tx_nowit_1x1 class=B tier=thorough bound="1 input (script 1 byte), 1 output (script 2 bytes), no witness; all structural features symbolic" timeout=1800
 //@ clause: size == len(serialize), weight == 3*len(stripped)+len(full) == 4*size, vsize == ceil(weight/4), discount_weight == weight - 96*[value confidential] - 128*[nonce confidential] with no underflow, for every pegin/issuance/null-explicit-confidential combination
 ffi_proof! {
 fn size_tx_nowit_1x1() {
     ffi_models::init_accept_all();
-    let mut i = Vec::with_capacity(1);
-    i.push(mk_in(1, 0, 0, NO, NO, NO));
-    let mut o = Vec::with_capacity(1);
-    o.push(mk_out(2, 0, 0));
-    let tx = mk_tx(i, o);
+    let mut ins = ManuallyDrop::new([mk_in(1, 0, 0, Vec::new(), Vec::new())]);
+    let mut outs = ManuallyDrop::new([mk_out(2, 0, 0)]);
+    let tx = mk_tx(unsafe { spec::vec_over(&mut ins) }, unsafe { spec::vec_over(&mut outs) });
     kani::cover!(tx.input[0].has_issuance() && tx.output[0].value.is_confidential() && tx.output[0].nonce.is_confidential());
     kani::cover!(!tx.input[0].has_issuance() && tx.output[0].nonce.is_null());
     assert!(!tx.has_witness());
@@ -194,52 +199,51 @@ fn size_tx_nowit_1x1() {
 }
 }
 
-//@ harness: size_tx_inwit_2x1 class=B tier=thorough bound="2 inputs (scripts 0 and 2 bytes; witness: amount proof 3, keys proof 0/2, script witness [1,0] / [], pegin witness [2] / []), 1 output without witness" timeout=900
+//@ harness: size_tx_inwit_2x1 class=B tier=thorough bound="2 inputs (scripts 0 and 2 bytes; witness: amount proof 3, keys proof 0/2, script witness [1,0] / [], pegin witness [2] / []), 1 output without witness" timeout=1800
 //@ clause: witness only on inputs: same contract; the output witness contributes exactly the 2 bytes of an empty witness and is not discounted
 ffi_proof! {
 fn size_tx_inwit_2x1() {
     ffi_models::init_accept_all();
-    let mut i = Vec::with_capacity(2);
-    i.push(mk_in(0, 3, 0, 1, 0, 2));
-    i.push(mk_in(2, 0, 2, NO, NO, NO));
-    let mut o = Vec::with_capacity(1);
-    o.push(mk_out(1, 0, 0));
-    let tx = mk_tx(i, o);
+    stack!(s0, 1, 0);
+    stack!(p0, 2, NO);
+    let mut ins = ManuallyDrop::new([
+        mk_in(0, 3, 0, stack_vec(&mut s0, 1, 0), stack_vec(&mut p0, 2, NO)),
+        mk_in(2, 0, 2, Vec::new(), Vec::new()),
+    ]);
+    let mut outs = ManuallyDrop::new([mk_out(1, 0, 0)]);
+    let tx = mk_tx(unsafe { spec::vec_over(&mut ins) }, unsafe { spec::vec_over(&mut outs) });
     assert!(tx.has_witness());
     kani::cover!(tx.input[0].has_issuance() && !tx.input[1].has_issuance());
     check_tx(tx);
 }
 }
 
-//@ harness: size_tx_outwit_1x2 class=B tier=thorough bound="1 input without witness, 2 outputs (scripts 0 and 3 bytes; witness: surjection 2 + range 3 / only range 1)" timeout=900
+//@ harness: size_tx_outwit_1x2 class=B tier=thorough bound="1 input without witness, 2 outputs (scripts 0 and 3 bytes; witness: surjection 2 + range 3 / only range 1)" timeout=1800
 //@ clause: witness only on outputs: same contract; discount_weight subtracts, per output, (its witness bytes - 2) + 96*[value confidential] + 128*[nonce confidential]
 ffi_proof! {
 fn size_tx_outwit_1x2() {
     ffi_models::init_accept_all();
-    let mut i = Vec::with_capacity(1);
-    i.push(mk_in(1, 0, 0, NO, NO, NO));
-    let mut o = Vec::with_capacity(2);
-    o.push(mk_out(0, 2, 3));
-    o.push(mk_out(3, 0, 1));
-    let tx = mk_tx(i, o);
+    let mut ins = ManuallyDrop::new([mk_in(1, 0, 0, Vec::new(), Vec::new())]);
+    let mut outs = ManuallyDrop::new([mk_out(0, 2, 3), mk_out(3, 0, 1)]);
+    let tx = mk_tx(unsafe { spec::vec_over(&mut ins) }, unsafe { spec::vec_over(&mut outs) });
     assert!(tx.has_witness());
     kani::cover!(tx.output[0].value.is_confidential() && tx.output[1].value.is_explicit());
     check_tx(tx);
 }
 }
 
-//@ harness: size_tx_bothwit_2x2 class=B tier=thorough bound="2 inputs, 2 outputs, witnesses on one input and one output, small concrete lengths" timeout=900
+//@ harness: size_tx_bothwit_2x2 class=B tier=thorough bound="2 inputs, 2 outputs, witnesses on one input and one output, small concrete lengths" timeout=1800
 //@ clause: witnesses on both sides, plus one input and one output with an empty witness inside a witness-carrying transaction (each still serializes its 4 resp. 2 empty-witness bytes)
 ffi_proof! {
 fn size_tx_bothwit_2x2() {
     ffi_models::init_accept_all();
-    let mut i = Vec::with_capacity(2);
-    i.push(mk_in(1, 0, 0, NO, NO, NO));
-    i.push(mk_in(0, 2, 1, 0, NO, NO));
-    let mut o = Vec::with_capacity(2);
-    o.push(mk_out(1, 0, 0));
-    o.push(mk_out(2, 1, 2));
-    let tx = mk_tx(i, o);
+    stack!(s1, 0, NO);
+    let mut ins = ManuallyDrop::new([
+        mk_in(1, 0, 0, Vec::new(), Vec::new()),
+        mk_in(0, 2, 1, stack_vec(&mut s1, 0, NO), Vec::new()),
+    ]);
+    let mut outs = ManuallyDrop::new([mk_out(1, 0, 0), mk_out(2, 1, 2)]);
+    let tx = mk_tx(unsafe { spec::vec_over(&mut ins) }, unsafe { spec::vec_over(&mut outs) });
     assert!(tx.has_witness());
     kani::cover!(true);
     check_tx(tx);
@@ -247,54 +251,60 @@ fn size_tx_bothwit_2x2() {
 }
 
 /// one field at a time at a varint boundary length; everything else minimal. 1 input, 1 output.
+/// f: 0 script_sig, 1 script_pubkey, 2 script-witness item, 3 pegin-witness item, 4 input amount proof,
+/// 5 output range proof, 6 output surjection proof
+fn one_field(f: usize, l: usize) {
+    stack!(s, if f == 2 { l } else { NO }, NO);
+    stack!(p, if f == 3 { l } else { NO }, NO);
+    let sw = stack_vec(&mut s, if f == 2 { l } else { NO }, NO);
+    let pw = stack_vec(&mut p, if f == 3 { l } else { NO }, NO);
+    let mut ins = ManuallyDrop::new([mk_in(if f == 0 { l } else { 1 }, if f == 4 { l } else { 0 }, 0, sw, pw)]);
+    let mut outs = ManuallyDrop::new([mk_out(if f == 1 { l } else { 1 }, if f == 6 { l } else { 0 }, if f == 5 { l } else { 0 })]);
+    let tx = mk_tx(unsafe { spec::vec_over(&mut ins) }, unsafe { spec::vec_over(&mut outs) });
+    assert!(tx.has_witness() == (f >= 2));
+    check_tx(tx);
+}
+
 macro_rules! boundary_harness {
-    ($name:ident, $l:expr, $surj:expr) => {
+    ($name:ident, $l:expr, $f0:expr, $f1:expr) => {
         ffi_proof! {
         fn $name() {
             ffi_models::init_accept_all();
             ffi_models::surj_len_only_mode();
-            const L: usize = $l;
-            // which single field takes the boundary length: 0 script_sig, 1 script_pubkey, 2 script-witness item,
-            // 3 pegin-witness item, 4 input amount proof, 5 output range proof, 6 output surjection proof
-            let mut f = 0;
-            while f < 7 {
-                if f == 6 && !$surj { f += 1; continue; }
-                let mut i = Vec::with_capacity(1);
-                i.push(mk_in(
-                    if f == 0 { L } else { 1 },
-                    if f == 4 { L } else { 0 },
-                    0,
-                    if f == 2 { L } else { NO },
-                    NO,
-                    if f == 3 { L } else { NO },
-                ));
-                let mut o = Vec::with_capacity(1);
-                o.push(mk_out(if f == 1 { L } else { 1 }, if f == 6 { L } else { 0 }, if f == 5 { L } else { 0 }));
-                let tx = mk_tx(i, o);
-                assert!(tx.has_witness() == (f >= 2));
-                check_tx(tx);
-                f += 1;
-            }
+            one_field($f0, $l);
+            one_field($f1, $l);
             kani::cover!(true);
         }
         }
     };
 }
 
-//@ harness: size_tx_boundary_fc class=B tier=thorough bound="1 input, 1 output; one of 7 variable-length fields at a time has length 0xFC" timeout=900
-//@ clause: the same contract with a field length just below the 1->3 byte varint boundary, for script_sig, script_pubkey, a script-witness item, a pegin-witness item, an input range proof, an output range proof, an output surjection proof
-boundary_harness!(size_tx_boundary_fc, 0xFC, true);
-//@ harness: size_tx_boundary_fd class=B tier=thorough bound="1 input, 1 output; one of 7 fields at a time has length 0xFD" timeout=900
+//@ harness: size_tx_boundary_fc_scripts class=B tier=thorough bound="1 input, 1 output; script_sig, then script_pubkey, of length 0xFC" timeout=1800
+//@ clause: the same contract with one field just below the 1->3 byte varint boundary
+boundary_harness!(size_tx_boundary_fc_scripts, 0xFC, 0, 1);
+//@ harness: size_tx_boundary_fd_scripts class=B tier=thorough bound="1 input, 1 output; script_sig, then script_pubkey, of length 0xFD" timeout=1800
 //@ clause: same, first length with a 3-byte varint
-boundary_harness!(size_tx_boundary_fd, 0xFD, true);
-//@ harness: size_tx_boundary_ffff class=B tier=thorough bound="1 input, 1 output; one of 6 fields at a time has length 0xFFFF (surjection proofs cannot be that long)" timeout=900
+boundary_harness!(size_tx_boundary_fd_scripts, 0xFD, 0, 1);
+//@ harness: size_tx_boundary_fd_stacks class=B tier=thorough bound="1 input, 1 output; a script-witness item, then a pegin-witness item, of length 0xFD" timeout=1800
+//@ clause: same for witness stack items
+boundary_harness!(size_tx_boundary_fd_stacks, 0xFD, 2, 3);
+//@ harness: size_tx_boundary_fd_proofs class=B tier=thorough bound="1 input, 1 output; input amount proof, then output range proof, of length 0xFD" timeout=1800
+//@ clause: same for range proofs
+boundary_harness!(size_tx_boundary_fd_proofs, 0xFD, 4, 5);
+//@ harness: size_tx_boundary_fc_surj class=B tier=thorough bound="1 input, 1 output; output surjection proof of length 0xFC, then output range proof of length 0xFC" timeout=1800
+//@ clause: same for the surjection proof (length-only FFI model) just below the boundary
+boundary_harness!(size_tx_boundary_fc_surj, 0xFC, 6, 5);
+//@ harness: size_tx_boundary_fd_surj class=B tier=thorough bound="1 input, 1 output; output surjection proof of length 0xFD, then a script-witness item of 0xFC" timeout=1800
+//@ clause: same for the surjection proof at the boundary
+boundary_harness!(size_tx_boundary_fd_surj, 0xFD, 6, 2);
+//@ harness: size_tx_boundary_ffff class=B tier=thorough bound="1 input, 1 output; script_sig, then a script-witness item, of length 0xFFFF" timeout=1800
 //@ clause: same, last length with a 3-byte varint
-boundary_harness!(size_tx_boundary_ffff, 0xFFFF, false);
-//@ harness: size_tx_boundary_10000 class=B tier=thorough bound="1 input, 1 output; one of 6 fields at a time has length 0x10000" timeout=900
+boundary_harness!(size_tx_boundary_ffff, 0xFFFF, 0, 2);
+//@ harness: size_tx_boundary_10000 class=B tier=thorough bound="1 input, 1 output; script_pubkey, then output range proof, of length 0x10000" timeout=1800
 //@ clause: same, first length with a 5-byte varint
-boundary_harness!(size_tx_boundary_10000, 0x10000, false);
+boundary_harness!(size_tx_boundary_10000, 0x10000, 1, 5);
 
-//@ harness: txoutwitness_lens class=B tier=quick bound="surjection proof length in {0,2,8}, range proof length in {0,1,0xFD}"
+//@ harness: txoutwitness_lens class=B tier=thorough bound="surjection proof length in {0,2,8}, range proof length in {0,1,0xFD}"
 //@ clause: TxOutWitness::rangeproof_len / surjectionproof_len are 0 for an absent proof and otherwise the serialized proof length, so the witness serializes to varint(len)+len for each
 ffi_proof! {
 fn txoutwitness_lens() {
@@ -314,45 +324,5 @@ fn txoutwitness_lens() {
     let w = TxOutWitness::empty();
     assert!(w.surjectionproof_len() == 0 && w.rangeproof_len() == 0 && w.is_empty() && enc_len(&w) == 2);
     kani::cover!(true);
-}
-}
-
-// ---- experiments (to be removed) ----
-ffi_proof! {
-fn exp_conc_1x1() {
-    ffi_models::init_accept_all();
-    let inp = TxIn {
-        previous_output: OutPoint { txid: Txid::from_byte_array([0u8; 32]), vout: 1 },
-        is_pegin: false,
-        script_sig: Script::from(vec![0u8; 1]),
-        sequence: Sequence(0),
-        asset_issuance: AssetIssuance::null(),
-        witness: TxInWitness { amount_rangeproof: None, inflation_keys_rangeproof: None, script_witness: stack(NO, NO), pegin_witness: stack(NO, NO) },
-    };
-    let out = TxOut { asset: confidential::Asset::Null, value: confidential::Value::Explicit(5), nonce: confidential::Nonce::Null,
-        script_pubkey: Script::from(vec![0u8; 2]), witness: TxOutWitness::empty() };
-    let mut i = Vec::with_capacity(1); i.push(inp);
-    let mut o = Vec::with_capacity(1); o.push(out);
-    let tx = mk_tx(i, o);
-    check_tx(tx);
-}
-}
-ffi_proof! {
-fn exp_symscalar_1x1() {
-    ffi_models::init_accept_all();
-    let inp = TxIn {
-        previous_output: OutPoint { txid: Txid::from_byte_array([0u8; 32]), vout: kani::any() },
-        is_pegin: kani::any(),
-        script_sig: Script::from(vec![0u8; 1]),
-        sequence: Sequence(kani::any()),
-        asset_issuance: AssetIssuance::null(),
-        witness: TxInWitness { amount_rangeproof: None, inflation_keys_rangeproof: None, script_witness: stack(NO, NO), pegin_witness: stack(NO, NO) },
-    };
-    let out = TxOut { asset: confidential::Asset::Null, value: confidential::Value::Explicit(kani::any()), nonce: confidential::Nonce::Null,
-        script_pubkey: Script::from(vec![0u8; 2]), witness: TxOutWitness::empty() };
-    let mut i = Vec::with_capacity(1); i.push(inp);
-    let mut o = Vec::with_capacity(1); o.push(out);
-    let tx = mk_tx(i, o);
-    check_tx(tx);
 }
 }
